@@ -64,7 +64,28 @@ def handle (j : Json) : Except String Json := do
   let (sFinal, trace) := ops.foldl (fun (acc : St × List Json) op =>
       let s' := step locked acc.1 op
       (s', Json.mkObj (opJson locked acc.1 op ++ stateJson s') :: acc.2)) (St.init, [])
+  -- optional: register / unregister calls made after the task handler was closed (the refusal is a BaseException)
+  let closedJs := match j.getObjVal? "closed_ops" with
+    | .ok (Json.arr a) => a.toList
+    | _ => []
+  let closedOps ← closedJs.mapM (fun c => do
+    let op ← getStr c "op"
+    if op == "register" then
+      let ok := match c.getObjVal? "interp" with
+        | .ok (Json.bool b) => b
+        | _ => true
+      if ok then pure (ClosedOp.register (some (← parseTrig c))) else pure (ClosedOp.register none)
+    else pure (ClosedOp.unregister (← getNat c "handle")))
+  let (_, ctrace) := closedOps.foldl (fun (acc : Svc × List Json) op =>
+      let raised : Bool := match op with
+        | .register b => (registerClosed acc.1 b .base).2.2.isSome
+        | .unregister h => (unregisterClosed acc.1 h .base).2.isSome
+      let v' := closedStep .base acc.1 op
+      (v', Json.mkObj [("raised", toJson raised), ("custom", trigsJson v'.custom),
+                       ("queued", toJson v'.queued.length), ("hash", optStr v'.hash),
+                       ("polled", trigsJson v'.polled)] :: acc.2)) (sFinal.svc, [])
   pure (Json.mkObj [("trace", Json.arr trace.reverse.toArray), ("quiescent", toJson (quiescent sFinal)),
+                    ("closed_trace", Json.arr ctrace.reverse.toArray),
                     ("expected", trigsJson (refRun ops).expected), ("ref_hash", optStr (refRun ops).hash)])
 
 end ConfigSvcDriver
